@@ -36,12 +36,21 @@ var c13ExplicitAlias bool
 var c13E1Val = "5"
 var c13E1Tag = "!!int"
 
+// c13InlineA: the map that H merges is written in place of the alias *a (a merge key may hold a map, YAML merge type).
+var c13InlineA bool
+
 func c13Build(ka1, ka2, kb1, kb2, e1, e2 string, mergeKind, pos int) *yaml.Node {
 	a := vMap(vStr(ka1), vInt("1"), vStr(ka2), vInt("2"))
 	a.Anchor = "a"
 	b := vMap(vStr(kb1), vInt("3"), vStr(kb2), vInt("4"))
 	b.Anchor = "b"
-	aliasA := func() *yaml.Node { return &yaml.Node{Kind: yaml.AliasNode, Value: "a", Alias: a} }
+	aliasA := func() *yaml.Node {
+		if c13InlineA {
+			// the merged map is written in place: `<<: {KA1: 1, KA2: 2}` (also as an entry of a merge list)
+			return vMap(vStr(ka1), vInt("1"), vStr(ka2), vInt("2"))
+		}
+		return &yaml.Node{Kind: yaml.AliasNode, Value: "a", Alias: a}
+	}
 	aliasB := func() *yaml.Node { return &yaml.Node{Kind: yaml.AliasNode, Value: "b", Alias: b} }
 	if mergeKind == 4 {
 		// A: &a {<<: *b, KA1: 1, KA2: 2} — the merged map has a merge key of its own (B then precedes A in the document)
@@ -88,7 +97,7 @@ func c13Build(ka1, ka2, kb1, kb2, e1, e2 string, mergeKind, pos int) *yaml.Node 
 	}
 	content = append(content, first...)
 	content = append(content, second...)
-	content = append(content, vStr("H"), h, vStr("S"), aliasA())
+	content = append(content, vStr("H"), h, vStr("S"), &yaml.Node{Kind: yaml.AliasNode, Value: "a", Alias: a})
 	return &yaml.Node{Kind: yaml.MappingNode, Tag: "!!map", Content: content}
 }
 
@@ -426,3 +435,30 @@ func VerifC13RedefinedAnchor() {
 	verifAssert(verifEqStr(got, want), "C13/alias-of-a-redefined-anchor-reads-the-wrong-node "+label)
 	verifCover("C13/redefined/end")
 }
+
+// VerifC13InlineMerge: the value of a merge key (or an entry of a merge list) may be a map written in place
+// (`<<: {k: 1}`, `<<: [{k: 1}, *b]`); it is merged exactly like an aliased one, on all read routes.
+func VerifC13InlineMerge() {
+	ka1, ka2, kb1, kb2, e1, e2 := c13Keys()
+	mergeKind := verifChoice("merge", 4)
+	pos := verifChoice("pos", 3)
+	q := verifStrN("q", 1, "ad")
+	want, src := c13Ref(q, ka1, ka2, kb1, kb2, e1, e2, mergeKind)
+	route := verifChoice("route", 5)
+	label := c13RouteNames[route] + " " + c13MergeNames[mergeKind] + " " + c13PosNames[pos] + " key=" + src + " in-place-map"
+	c13InlineA = true
+	got, ok := c13Read(route, c13Build(ka1, ka2, kb1, kb2, e1, e2, mergeKind, pos), q)
+	c13InlineA = false
+	verifAssert(ok, "C13/read-error "+label)
+	if !ok {
+		return
+	}
+	verifObserve("got", got)
+	verifObserve("want", want)
+	verifAssert(verifEqStr(got, want), "C13/resolves-per-merge-rules "+label)
+	if src == "merged" {
+		verifCover("C13/inline/merged")
+	}
+	verifCover("C13/inline/end")
+}
+
